@@ -308,6 +308,10 @@ def logical(it, opn, a, b, node):
 
 # ====================================================================================================== attributes
 def getattr_(it, base, attr, node, fr):
+    if isinstance(base, Filtered) and attr == "shape" and base.axes is not None:
+        return Seq([Val(A.n) for A in base.axes], "tuple")
+    if isinstance(base, Filtered) and attr in ("dtype", "ndim"):
+        return K(len(base.axes)) if attr == "ndim" and base.axes is not None else Unk(call("." + attr, base.term))
     if isinstance(base, imgdom.CompStack):
         if attr == "shape":
             n_ = Val(call("gridsize", *[A.n for A in (base.axes or [])]))
@@ -737,6 +741,13 @@ def getitem(it, base, idx, node, fr):
         if base.name in ("numpy.mgrid", "numpy.ogrid"):
             return imgdom.mgrid(it, base.name, idx, node)
         return Ref(base.name + "[]")
+    if isinstance(base, Filtered):
+        parts_ = idx.items if isinstance(idx, Seq) else [idx]
+        if all(isinstance(p_, SliceV) for p_ in parts_):
+            c_ = Filtered(base.src, base.gain, base.axes, base.transformed, base.real)
+            c_.__dict__.update({k_: v_ for k_, v_ in base.__dict__.items() if k_ in ("padded", "cast", "cast_node", "shortcut")})
+            c_.cropped = True  # a window of the filtered array (e.g. cropping a padded canvas back)
+            return c_
     if isinstance(base, (Spectrum, Filtered)):
         raise Unsupported("indexing a spectrum / filtered array", node)
     if isinstance(base, Rot):
